@@ -63,7 +63,7 @@ PROPS['C10'] = dict(
 
 DYN_FUNCS = ['new', 'add_release_for_all_unreleased_presses', 'lemma_closed', 'add_event', 'tick_record_state', 'tick_replay_state', 'begin_record_macro', 'record_press',
              'record_release', 'stop_macro', 'key_event', 'delay', 'as_u16', 'as_u16_linux', 'from',
-             'lemma_release_appended', 'lemma_all_released', 'replay_step_emits_head', 'play_macro_nested']
+             'lemma_release_appended', 'lemma_all_released', 'replay_step_emits_head', 'play_macro_nested', 'play_macro_fresh']
 
 PROPS['C19'] = dict(
     level='proof',
